@@ -22,6 +22,7 @@ RULE = (
     "Non-trivial = configuration with >=1 rule off and an input containing that rule's trigger; distinct by (conf id, source)."
 )
 ASSUMPTIONS = [
+    "histories also insert inert plug-in rules next to built-in ones, warm the compiled chains with a parse, and call enableOnly on the inline/inline2 chains",
     "a rule counts as enabled by the set semantics of the enable/disable calls in the history (per chain registering a rule of that name), starting from the preset's active rules",
     "attribute route compared for the options that have an attribute on OptionsDict (the ten core options)",
 ]
@@ -45,7 +46,7 @@ OPTIONAL = list(TRIGGERS)
 
 def floors(tier):
     f = {"a.streams": 50000 if tier == "quick" else 1500000, "b.table_twins": 10000, "b.strike_twins": 10000, "c.twins": 10000, "c.definitions_seen": 5000,
-         "c.labels_seen": 3000, "d.routes": 2000, "zero_streams": 1500}
+         "c.labels_seen": 3000, "d.routes": 2000, "zero_streams": 500}
     for r in OPTIONAL:
         f["trigger_present_rule_off." + r] = 300
     return f
@@ -55,8 +56,26 @@ def build(hist):
     """hist: {"preset", "options", "steps": [["enable"|"disable", name-or-list], ...]}"""
     from markdown_it import MarkdownIt
     md = MarkdownIt(hist["preset"], hist.get("options") or None)
-    for op, names in hist.get("steps", []):
-        getattr(md, op)(names)
+    if hist.get("stub_linkify"):
+        md.linkify = C.StubLinkify()
+    for step in hist.get("steps", []):
+        op, names = step[0], step[1]
+        if op == "plugin":
+            # a plug-in registers an inert rule next to a built-in one (public Ruler.before/after/push)
+            chain, how, ref, nm = names
+            ruler = md.inline.ruler2 if chain == "inline2" else md[chain].ruler
+            fn = {"core": (lambda s: None), "inline2": (lambda s: None), "block": (lambda s, a, b, silent: False), "inline": (lambda s, silent: False)}[chain]
+            if how == "push" and chain != "block":
+                ruler.push(nm, fn)
+            else:
+                getattr(ruler, how if how != "push" else "before")(ref, nm, fn)
+        elif op == "parse":
+            md.parse("warm *up* `x` [l](u)\n\n> q\n")   # compiles the rule chains
+        elif op == "enableOnly":
+            chain, lst = names
+            (md.inline.ruler2 if chain == "inline2" else md[chain].ruler).enableOnly(list(lst), True)
+        else:
+            getattr(md, op)(names)
     if hist.get("stub_linkify"):
         md.linkify = C.StubLinkify()
     return md
@@ -75,7 +94,14 @@ def switched_on(hist):
         _preset_active[p] = (m.get_active_rules(), m.get_all_rules())
     act, allr = _preset_active[p]
     on = {ch: set(v) for ch, v in act.items()}
-    for op, names in hist.get("steps", []):
+    for step in hist.get("steps", []):
+        op, names = step[0], step[1]
+        if op in ("plugin", "parse"):
+            continue
+        if op == "enableOnly":
+            chain, lst = names
+            on[chain] = {n for n in lst if n in allr[chain]}
+            continue
         names = [names] if isinstance(names, str) else names
         for ch in on:
             for n in names:
@@ -329,6 +355,24 @@ def rand_hist(rng, preset=None):
     # later steps may override earlier ones for the same rule: that is part of the history
     if rng.random() < 0.2 and names:
         hist["steps"].append([rng.choice(["enable", "disable"]), rng.choice(names)])
+    # plug-in rules inserted next to built-in ones, cache-warming parses, and direct enableOnly on a chain that may become empty
+    if rng.random() < 0.3:
+        for _ in range(rng.randint(1, 3)):
+            chain = rng.choice(["block", "inline", "inline", "inline2", "core"])
+            ref = rng.choice({"block": ["table", "fence", "list", "paragraph", "heading", "blockquote", "hr"], "inline": ["emphasis", "link", "image", "autolink", "backticks", "text", "strikethrough", "entity"],
+                              "inline2": ["emphasis", "balance_pairs", "strikethrough"], "core": ["inline", "block", "text_join", "replacements"]}[chain])
+            how = rng.choice(["before", "after", "before"])
+            if ref == "paragraph":
+                how = "before"
+            hist["steps"].insert(rng.randint(0, len(hist["steps"])), ["plugin", [chain, how, ref, f"plug{len(hist['steps'])}"]])
+    if rng.random() < 0.3:
+        hist["steps"].insert(rng.randint(0, len(hist["steps"])), ["parse", None])
+        if rng.random() < 0.5:
+            chain = rng.choice(["inline2", "inline2", "inline"])
+            lst = rng.choice([[], [], ["nope"], ["balance_pairs", "fragments_join"], ["text"], ["text", "emphasis"], ["emphasis"]])
+            if chain == "inline" and "text" not in lst:
+                lst = lst + ["text"]
+            hist["steps"].append(["enableOnly", [chain, lst]])
     return hist
 
 
